@@ -175,6 +175,37 @@ pub fn gen_entries(rng: &mut Rng, cmp: &CmpKind, max_n: usize, max_val: usize) -
         }
         return keys.into_iter().map(|k| { let vl = rng.below(6); (k, rng.any_bytes(vl)) }).collect();
     }
+    // one set in eight: entries whose header numbers need multi-byte varints - keys and shared prefixes around
+    // 127/128 bytes, values around 127/128 and (rarely) 16383/16384 bytes
+    if max_n >= 6 && rng.chance(1, 8) {
+        let n = rng.range(2, 7);
+        let plen = *rng.pick(&[0usize, 100, 126, 127, 128, 129, 200]);
+        let prefix = rng.bytes(plen, &[b'p', b'q', 0x00, 0xff]);
+        let mut keys: Vec<Vec<u8>> = (0..n)
+            .map(|_| {
+                let mut k = prefix.clone();
+                let tl = *rng.pick(&[0usize, 1, 2, 5, 126usize.saturating_sub(plen), 127usize.saturating_sub(plen), 128usize.saturating_sub(plen), 130]);
+                k.extend(rng.bytes(tl, &[b'a', b'b', 0x01, 0xfe, 0xff]));
+                k
+            })
+            .collect();
+        keys.sort();
+        keys.dedup();
+        if *cmp == CmpKind::Reverse {
+            keys.reverse();
+        }
+        return keys
+            .into_iter()
+            .map(|k| {
+                let vl = match rng.below(40) {
+                    0 => 16383 + rng.below(3),
+                    1..=20 => 126 + rng.below(4),
+                    _ => rng.below(10),
+                };
+                (k, rng.any_bytes(vl))
+            })
+            .collect();
+    }
     let n = match rng.below(8) {
         0 => 0,
         1 => 1,
@@ -219,7 +250,20 @@ pub fn entries_str(es: &[(Vec<u8>, Vec<u8>)]) -> String {
 /// probe keys for a table: stored keys, neighbours, prefixes, extensions, extremes
 pub fn probes(rng: &mut Rng, es: &[(Vec<u8>, Vec<u8>)], extra: &[Vec<u8>]) -> Vec<Vec<u8>> {
     let mut out: Vec<Vec<u8>> = vec![vec![], vec![0], vec![0xff, 0xff, 0xff, 0xff, 0xff, 0xff, 0xff]];
-    for (k, _) in es {
+    // large tables: the neighbourhoods of a sample of 24 keys (first, last and random ones) - every probe is one
+    // request carrying the whole image
+    let sample: Vec<&(Vec<u8>, Vec<u8>)> = if es.len() > 60 {
+        let mut ix: Vec<usize> = vec![0, 1, es.len() / 2, es.len() - 2, es.len() - 1];
+        for _ in 0..19 {
+            ix.push(rng.below(es.len()));
+        }
+        ix.sort();
+        ix.dedup();
+        ix.into_iter().map(|i| &es[i]).collect()
+    } else {
+        es.iter().collect()
+    };
+    for (k, _) in sample.into_iter() {
         out.push(k.clone());
         let mut e = k.clone();
         e.push(0);
